@@ -8,6 +8,7 @@ CONSTANTS
  MaxFaults = 4
  MaxSeeks = 1
  Conc = 8
+ StoreAnchor = TRUE
  RelNR = TRUE
  FixLeak = TRUE
  PrioAsc = TRUE
